@@ -35,6 +35,12 @@ first-order, so the first-order and higher-order theorems do not speak about the
    NOT covered by this theorem: nested internal nodes (a passed operation that itself receives an
    operation); `C08_hof_one_level_fails_nested` shows that its description is false for them.
    `C08_hof_nested` is the local rule for them (any expression).
+   `C08_hof_wiring` is the complete local rule for one passed operation (any expression, any
+   configuration): the internal node receives *every* input the receiving step had before this
+   argument — its own argument's node too when that was an input already (the same source passed a
+   second time; graph.py `repeated`) — and, under three disequalities on the state, the new edges
+   are exactly the listed ones. `C08_hof_one_level_sources` is the one-level theorem for spines in
+   which sources of function type are passed as operations, the same one several times included.
 4. `C08_hof_general`: operations passed as arguments at any depth (class `Hof`: every spine has an
    operator at its head, an argument of function type is not a source, no `.shared` nodes). The
    internal pairs are literally, and the `from` edges as a set, those of the recursive layout
@@ -286,6 +292,95 @@ theorem C08_hof_nested (G : GLang) (c : GCfg) (root : Node) (origin : Option Nod
       (∀ p ∈ g2.fd.frm, p ∈ g'.fd.frm) ∧
       ∀ μ, (xnode, μ) ∈ g2.internals → (μ, g1.nextB + 1) ∈ g'.fd.frm :=
   addExpr_nested hc hfun h
+
+/-- The complete local rule for one passed operation (any expression, any configuration, any state).
+With `g1`, `fnode`, `gi`, `g2`, `xnode` as in `C08_hof_nested` and `lam = g1.nextB + 1` the internal node
+made for the argument `x`:
+* `lam` receives every input `fin` that the step `fnode` has in `g2`, i.e. before this argument is
+  wired. There is no exception for `x`'s own node: when `xnode` is an input of `fnode` already (the
+  same source passed a second time), `lam` receives `xnode` as well;
+* every other internal node `j` of the step receives `xnode` (so an internal node also gets the
+  arguments that come after its own);
+* if `fnode ≠ xnode` and `fnode` is not listed as an internal node of itself or of `xnode`, the edges
+  after the call are exactly those of `g2` and: `xnode → lam`; `fnode → xnode`; `μ → lam` for the internal
+  nodes `μ` of `xnode` (nested rule); `j → xnode` for the other internal nodes `j` of `fnode`; `lam → fin`
+  for the inputs `fin` of `fnode` in `g2`. In particular `lam → xnode` is a new edge exactly when
+  `fnode → xnode` is an edge of `g2`. -/
+theorem C08_hof_wiring (G : GLang) (c : GCfg) (root : Node) (origin : Option Node) (g g' : GState)
+    (f x : TExpr) (ty : Term) (m : Nat) (im : Bool) (n : Nat)
+    (hfun : x.ty.isFunction = true)
+    (h : addExpr G c root origin g (.app f x ty) (some m) im = .ok (g', n)) :
+    ∃ (g1 : GState) (fnode : Nat) (gi g2 : GState) (xnode : Nat),
+      addExpr G c root origin g f (some m) im = .ok (g1, fnode) ∧
+      gi.nextB = g1.nextB + 2 ∧ gi.internals = g1.internals ++ [(fnode, g1.nextB + 1)] ∧
+      gi.srcNodes = g1.srcNodes ∧ gi.sharedNodes = g1.sharedNodes ∧ gi.fd = g1.fd ∧
+      addExpr G c root origin gi x (some g1.nextB) true = .ok (g2, xnode) ∧
+      g'.internals = g2.internals ∧
+      (∀ fin, (fnode, fin) ∈ g2.fd.frm → (g1.nextB + 1, fin) ∈ g'.fd.frm) ∧
+      (∀ j, (fnode, j) ∈ g2.internals → j ≠ g1.nextB + 1 → (j, xnode) ∈ g'.fd.frm) ∧
+      (fnode ≠ xnode → (fnode, fnode) ∉ g2.internals → (xnode, fnode) ∉ g2.internals →
+        ∀ p, p ∈ g'.fd.frm ↔
+          p ∈ g2.fd.frm ∨ p = (xnode, g1.nextB + 1) ∨ p = (fnode, xnode) ∨
+          (∃ μ, (xnode, μ) ∈ g2.internals ∧ p = (μ, g1.nextB + 1)) ∨
+          (∃ j, (fnode, j) ∈ g2.internals ∧ j ≠ g1.nextB + 1 ∧ p = (j, xnode)) ∨
+          (∃ fin, (fnode, fin) ∈ g2.fd.frm ∧ p = (g1.nextB + 1, fin))) :=
+  addExpr_wiring hfun h
+
+/-- `k s s` with the source `s : A ** A` passed twice: the outer application has a function-typed
+argument, and the run has the edge `4 → 1` from the second internal node to `s`'s node, which is its
+own argument's node and was an input of node 0 already. -/
+example : (match exRep with | .app _ x _ => x.ty.isFunction | _ => false) = true ∧
+    summary (addExpr exG exCfg (.res "w") none {} exRep none false) =
+      some ([(4, 1), (2, 1), (0, 1), (1, 4), (0, 1), (1, 2)], [(0, 2), (0, 4)], [(3, 1)], 5, 0) :=
+  ⟨rfl, exRep_run⟩
+
+/-- One level of passed operations, sources included. Like `C08_hof_one_level_partial`, but a passed
+operation need not have an operator at its head: the arguments are just first-order, so a source of
+function type may be passed, also several times. Instead the state must not have an internal node
+attached to a source node (`SrcNoInt`; true of the empty state, kept by this theorem's expressions:
+`C08_hof_one_level_sources_fresh`). The description is literally the same, and `hofEdges` speaks of
+argument *positions*: the internal node `λᵢ` receives `node(aⱼ)` for every `j ≠ i`, also when
+`node(aⱼ) = node(aᵢ)` because the same source is passed at both positions. (Before the repair of
+defect D27 the later of two such internal nodes did not receive the node, and this statement was
+false for `k s s`.) -/
+theorem C08_hof_one_level_sources (G : GLang) (c : GCfg) (root : Node) (origin : Option Node)
+    (hc : c.withTypes = false) (g g' : GState) (e : TExpr) (cur : Option Nat) (im : Bool) (n : Nat)
+    (name : String) (ty : Term) (hh : headOf e = .op name ty) (hargs : ∀ a ∈ argsOf e, FirstOrder a)
+    (hg : GFresh g) (hs : SrcNoInt g) (hcur : ∀ m, cur = some m → CurFree g m)
+    (h : addExpr G c root origin g e cur im = .ok (g', n)) :
+    n = (allocNode g.nextB cur).1 ∧
+    g'.nextB = (flowHO1 g.nextB g.srcNodes e cur).next ∧
+    g'.srcNodes = (flowHO1 g.nextB g.srcNodes e cur).memo ∧
+    g'.sharedNodes = g.sharedNodes ∧
+    g'.internals = g.internals ++ lamsOf n (flowHO1 g.nextB g.srcNodes e cur).args ∧
+    (∀ p, p ∈ g'.fd.frm ↔ p ∈ g.fd.frm ∨ p ∈ (flowHO1 g.nextB g.srcNodes e cur).inner ∨
+      hofEdges n (flowHO1 g.nextB g.srcNodes e cur).args p) ∧
+    (flowHO1 g.nextB g.srcNodes e cur).args.map (fun info => info.lam.isSome) =
+      (argsOf e).map (fun a => a.ty.isFunction) ∧
+    ((flowHO1 g.nextB g.srcNodes e cur).args.filterMap (fun a => a.lam)).Nodup ∧
+    (∀ a ∈ (flowHO1 g.nextB g.srcNodes e cur).args, ∀ i, a.lam = some i → g.nextB ≤ i ∧ i < g'.nextB) :=
+  addExpr_hof_one_level_src hc hh hargs hg hs hcur h
+
+/-- `k s s`: not in the class of `C08_hof_one_level_partial` (a passed operation is a source), but its
+arguments are first-order and the empty state qualifies; both positions have node 1, the internal
+nodes are 2 and 4, and `4 → 1` is an edge of the description (`i = 1`, `j = 0`) and of the graph. -/
+example : headOf exRep = .op "k" tFFA ∧ (∀ a ∈ argsOf exRep, FirstOrder a) ∧ (¬ ∀ a ∈ argsOf exRep, HofArg a) ∧
+    GFresh {} ∧ SrcNoInt {} ∧
+    flowHO1 0 [] exRep none =
+      { node := 0, next := 5, memo := [(3, 1)], args := [⟨1, some 2⟩, ⟨1, some 4⟩], inner := [] } ∧
+    hofEdges 0 [⟨1, some 2⟩, ⟨1, some 4⟩] (4, 1) ∧
+    summary (addExpr exG exCfg (.res "w") none {} exRep none false) =
+      some ([(4, 1), (2, 1), (0, 1), (1, 4), (0, 1), (1, 2)], [(0, 2), (0, 4)], [(3, 1)], 5, 0) :=
+  ⟨rfl, exRep_args, exRep_not_hofArg, gfresh_empty, srcNoInt_empty, exRep_flow, exRep_edge, exRep_run⟩
+
+/-- Such a spine keeps the state consistent and free of internal nodes attached to source nodes, so
+the theorems can be applied to the next expression. -/
+theorem C08_hof_one_level_sources_fresh (G : GLang) (c : GCfg) (root : Node) (origin : Option Node)
+    (hc : c.withTypes = false) (g g' : GState) (e : TExpr) (cur : Option Nat) (im : Bool) (n : Nat)
+    (name : String) (ty : Term) (hh : headOf e = .op name ty) (hargs : ∀ a ∈ argsOf e, FirstOrder a)
+    (hg : GFresh g) (hs : SrcNoInt g) (hcur : ∀ m, cur = some m → CurFree g m)
+    (h : addExpr G c root origin g e cur im = .ok (g', n)) : GFresh g' ∧ SrcNoInt g' :=
+  addExpr_hof_one_level_src_fresh hc hh hargs hg hs hcur h
 
 /-- `h (u v) x`, where `u v : A ** A` is passed to `h` and `v : A ** A` is passed to `u`.
 Nodes: 0 = `h …`, 1 = `u v` with internal node 2 (of `h`), 3 = `v` with internal node 4 (of `u`), 5 = `x`.
